@@ -105,12 +105,22 @@ def round_case(rec, label, x, eps, rmax):
     Mb = list(x.M) if x.is_ttm else None
 
     def impl():
+        rm_arg = rmax
+        if isinstance(rmax, list):
+            # a per-bond list is an argument object the caller keeps: the SAME list is first used for a rank-one tensor of the same shape
+            # (the loop `x = (x - a*g).round(0, Rx)` of the library's own examples), then for the operand; it must come back unchanged
+            rm_arg = list(rmax)
+            small = torchtt.TT([c[:1, ..., :1].clone() for c in x.cores])
+            small.round(eps, rm_arg)
+            box["rm_after_first"] = list(rm_arg)
         c0 = len(rec.calls)
         rec.active = True
         try:
-            y = x.round(eps) if rmax is None else x.round(eps, rmax)
+            y = x.round(eps) if rmax is None else x.round(eps, rm_arg)
         finally:
             rec.active = False
+        if isinstance(rmax, list):
+            box["rm_after"] = list(rm_arg)
         box["y"] = y
         box["calls"] = rec.calls[c0:]
         return "ok"
@@ -121,6 +131,8 @@ def round_case(rec, label, x, eps, rmax):
         y = box["y"]
         if y is x:
             return "round returned its operand instead of a new object"
+        if isinstance(rmax, list) and (box.get("rm_after") != list(rmax) or box.get("rm_after_first") != list(rmax)):
+            return "round modified the caller's rmax list: %s -> %s" % (list(rmax), box.get("rm_after"))
         # operand intact
         if list(x.R) != Rb or list(x.N) != Nb or len(x.cores) != len(before):
             return "operand metadata changed by round: R %s -> %s" % (Rb, list(x.R))
